@@ -53,6 +53,109 @@ def closure(ws, roots, crates=('mithril_common',)):
     return seen, ext
 
 
+MAXP = ('std::cmp::max', '*::Ord>::max', 'std::cmp::Ord::max')
+KEEP = ('*::clone', '*::deref', '*::borrow', '*::as_ref', '*::to_owned', '*::from', '*::into', '*::Deref>::deref', '*::Clone>::clone')
+
+
+def _const_val(ws, body, op):
+    """The integer value of a constant operand: a literal, or a named constant the driver evaluated (incl. integer newtypes)."""
+    if op[0] == 'const':
+        if isinstance(op[3], int):
+            return op[3]
+        c = ws.consts.get(op[1])
+        if c is not None:
+            try:
+                return int(c['bits'])
+            except (KeyError, ValueError):
+                return None
+        return None
+    v = body.const_of(op)
+    return v if isinstance(v, int) else None
+
+
+def _nonzero(ws, f, op, at_bb, depth=0):
+    """Is the value of `op` (used in block `at_bb`) different from zero on every path?  Decided structurally: a non-zero constant; a
+    newtype built around one; `max(x, c)` with a constant c >= 1; a copy / conversion of such a value; or a value v used only where
+    a test of v against 0 has taken its non-zero outcome (`if step == 0 { 1 } else { step }`).  Every definition of a local counts."""
+    from engine import find_guards
+    body = f.body
+    if depth > 8:
+        return False
+    cv = _const_val(ws, body, op)
+    if cv is not None:
+        return cv != 0
+    if op[0] not in ('copy', 'move'):
+        return False
+    # a zero test on the same value whose zero outcome cannot reach this use
+    og = {o for o in fn_origins(f, op, 'adapters') if o.startswith(('p#', 'pty:'))}
+    if og:
+        for g in find_guards(body):
+            for x, xo, y in ((g.a, g.a_orig, g.b), (g.b, g.b_orig, g.a)):
+                yv = _const_val(ws, body, y)
+                if yv is None:
+                    yo = [o for o in fn_origins(f, y, True)]
+                    if len(yo) == 1 and yo[0].startswith('const:'):
+                        try:
+                            yv = int(yo[0][6:].split('_')[0])
+                        except ValueError:
+                            yv = None
+                if yv is None or {o for o in xo if o.startswith(('p#', 'pty:'))} != og:
+                    continue
+                swap = x is g.b
+                op_ = g.op if not swap else {'Lt': 'Gt', 'Gt': 'Lt', 'Le': 'Ge', 'Ge': 'Le'}.get(g.op, g.op)
+                # edges on which the value may be zero
+                if yv == 0 and op_ == 'Eq':
+                    zero = g.true_edges
+                elif yv == 0 and op_ == 'Ne':
+                    zero = g.false_edges
+                elif (yv == 0 and op_ == 'Gt') or (yv == 1 and op_ == 'Ge'):
+                    zero = g.false_edges
+                elif (yv == 0 and op_ == 'Le') or (yv == 1 and op_ == 'Lt'):
+                    zero = g.true_edges
+                else:
+                    continue
+                nonzero_edges = (g.true_edges | g.false_edges) - zero
+                if zero and nonzero_edges and at_bb not in body.reach([0], removed=nonzero_edges):
+                    return True
+    if op[1][1]:
+        return False
+    l = op[1][0]
+    defs = []
+    for bi, b in enumerate(body.blocks):
+        if b.cleanup:
+            continue
+        for (_, pl, rv) in b.stmts:
+            if pl[0] == l and not pl[1]:
+                defs.append((bi, rv, None))
+        t = b.term
+        if t[0] == 'call' and t[1].dest[0] == l and not t[1].dest[1]:
+            defs.append((bi, None, t[1]))
+    if not defs:
+        return False
+    for bi, rv, call in defs:
+        if call is not None:
+            if any(glob_match(p_, n) for n in call.names() for p_ in MAXP):
+                if not any(_nonzero(ws, f, a, bi, depth + 1) for a in call.args):
+                    return False
+            elif any(glob_match(p_, n) for n in call.names() for p_ in KEEP) and len(call.args) == 1:
+                if not _nonzero(ws, f, call.args[0], bi, depth + 1):
+                    return False
+            else:
+                return False
+        elif rv[0] == 'use':
+            if not _nonzero(ws, f, rv[1], bi, depth + 1):
+                return False
+        elif rv[0] == 'agg' and len(rv[5]) == 1:
+            if not _nonzero(ws, f, rv[5][0], bi, depth + 1):
+                return False
+        elif rv[0] == 'ref':
+            if not _nonzero(ws, f, ('copy', rv[1]), bi, depth + 1):
+                return False
+        else:
+            return False
+    return True
+
+
 def run(ctx):
     R = ctx.report
     ws = ctx.ws
@@ -191,12 +294,7 @@ def run(ctx):
             if not has(og_all, 'pty:*.step'):
                 problems.append('the configured step does not influence the result')
         for c in divs:
-            o1 = fn_origins(f, c.args[1], True)
-            mx = [m for m in body.calls() if any(glob_match('std::cmp::max', n) or glob_match('*::Ord>::max', n) or glob_match('std::cmp::Ord::max', n) for n in m.names())
-                  and any(body.const_of(a) == 1 or has(fn_origins(f, a, True), 'const:1*') or has(fn_origins(f, a, True), 'adt:*BlockNumber*') for a in m.args)]
-            if body.const_of(c.args[1]) not in (None, 0) or (has(o1, 'const:*') and not any(o.startswith(('p#', 'pty:', 'param:', 'call:')) for o in o1)):
-                continue        # a literal non-zero divisor
-            if not ((has(o1, 'call:std::cmp::max') or has(o1, 'call:*::max')) and mx):
+            if not _nonzero(ws, f, c.args[1], c.bb):
                 problems.append('the divisor of %s (line %s) is not floored at 1 (step = 0 would panic)' % (fn_short(c.best()), c.line))
         if fn == TXC:
             # the transaction step is aligned on block ranges and never below one range
@@ -212,11 +310,10 @@ def run(ctx):
         else:
             R.ok('c', 'R7', inst, '%d subtraction(s), %d division(s)' % (len(subs), len(divs)), f.loc())
     if len(spliced) == 2:
+        # whether the two configurations share a private helper is a matter of layout, not of the property: each is decided on its
+        # own above (a shared helper is only recorded)
         shared = spliced[TXC] & spliced[BTC]
-        if shared:
-            R.ok('b', 'R3', 'both signing configurations round with the same private formula', ', '.join(sorted(fn_short(x) for x in shared)))
-        else:
-            R.violation('b', 'R3', 'both signing configurations round with the same private formula', 'beacon:shared-formula', 'no common helper: %s' % spliced, None)
+        R.info('b', 'private helpers shared by the two signing configurations: %s' % (', '.join(sorted(fn_short(x) for x in shared)) or 'none'))
     tx = ctx.try_fn('c', TXC)
     if tx is not None:
         subs = [c for c in tx.body.calls() if any(glob_match('*std::ops::arith::Sub*::sub', n) for n in c.names())]
